@@ -379,6 +379,13 @@ func RenderValue(f *ssa.Function, v ssa.Value) string {
 	return fp.expr(v)
 }
 
+// RenderCond renders a branch condition under the given truth in normal form
+// (conjuncts joined by " && ").
+func RenderCond(f *ssa.Function, cond ssa.Value, truth bool) string {
+	fp := &fingerprinter{short: true, f: f, pred: map[*ssa.BasicBlock]*ssa.BasicBlock{}, spill: map[*ssa.Alloc]ssa.Value{}}
+	return strings.Join(sortedCopy(fp.cond(cond, truth)), " && ")
+}
+
 // Anchor is a call instruction of interest inside a function, named by its
 // callee and its ordinal among the calls of that callee in the function.
 type Anchor struct {
